@@ -224,6 +224,7 @@ def mutation_adequacy(prop, fn):
     import glob, shutil, subprocess, tempfile
     patches = sorted(glob.glob(os.path.join(VERIF, 'seeded', prop + '-m*', 'patch.diff'))) + \
         sorted(glob.glob(os.path.join(VERIF, 'seeded2', prop + '-*', 'patch.diff'))) + \
+        sorted(glob.glob(os.path.join(VERIF, 'seeded3', prop + '-q*', 'patch.diff'))) + \
         sorted(glob.glob(os.path.join(VERIF, 'selftest', prop.lower() + '_*.diff')))
     out = {'applied': 0, 'detected': 0, 'not_applicable_to_this_tree': 0, 'details': []}
     for pt in patches:
